@@ -198,7 +198,7 @@ def run(ctx):
             requested = bool(exists and got is not None and got in e[1])
             why = "llvm-mc: %s ; requested: %s" % (al_raw[a] if l == 1 else al_raw[a:a + l], sorted(e[1]) if e else "no such instruction")
             am = A.ALIAS_MNEMONIC.get(rec["m"])
-            if requested and am and al[a].split()[0] not in (am if isinstance(am, tuple) else (am,)):
+            if requested and am and al_raw[a].split()[0].lower() not in (am if isinstance(am, tuple) else (am,)):
                 requested = False
                 why = "alias form expected %s, llvm-mc prints %s" % (am, al_raw[a])
         shapes.add((rec["m"], rec["x"], tuple(len(str(x)) for x in rec["i"])))
